@@ -1,12 +1,14 @@
 // Command gen/c18 prints coq/Gen/C18Facts.v from the /repo working tree (terms, never verdicts):
-// the ordered non-EVM ante chain, the textual normal forms of the dev-gas payout formula and of
-// the recipient collection, and the order of guard / write calls in the three registry handlers.
+// the ordered non-EVM ante chain, the dev-gas payout formula / bank send / recipient collection in a
+// normal form that ignores local names, early-return vs nested-if, range vs index loops and
+// straight-line unexported helpers, and the order of guard / write calls in the registry handlers.
 package main
 
 import (
 	"fmt"
 	"go/ast"
 	"go/token"
+	"regexp"
 	"strings"
 
 	. "verifharness/genlib"
@@ -97,198 +99,276 @@ func main() {
 	dante := ParseDir(repo + "/x/devgas/v1/ante")
 	df := Funcs(dante)
 
-	for _, fn := range []string{"FeePayLogic", "getWithdrawAddressesFromMsgs", "settleFeePayments", "devGasPayout"} {
-		if fd := df[fn]; fd != nil {
-			alphaNorm(fd)
-		}
-	}
-	// FeePayLogic: the expression assigned to the reward, what is added to the result, the loop range
-	// (identifiers alpha-normalised: R receiver, P<i> parameters, L<k> locals in order of definition)
-	reward, added, ranged := "", "", ""
+	pkg := &pkgInfo{funcs: df}
+
+	// FeePayLogic: the coin that is added per fee coin, with locals inlined, parameters P<i>, and loop
+	// variables written elem(<ranged expr>) — e.g. sdk.NewCoin(elem(P0.Sort()).Denom, P1.MulInt(…).QuoInt64(int64(P2)).RoundInt())
+	rewardCoin := ""
 	if fd := df["FeePayLogic"]; fd != nil && fd.Body != nil {
+		sc := newScope(pkg, fd)
 		ast.Inspect(fd.Body, func(n ast.Node) bool {
-			switch x := n.(type) {
-			case *ast.AssignStmt:
-				if len(x.Lhs) == 1 && len(x.Rhs) == 1 {
-					if _, ok := x.Lhs[0].(*ast.Ident); ok {
-						if x.Tok == token.DEFINE && reward == "" {
-							reward = Nospace(x.Rhs[0])
-						}
-						if x.Tok == token.ASSIGN {
-							added = Nospace(x.Lhs[0]) + "=" + Nospace(x.Rhs[0])
-						}
-					}
+			if c, ok := n.(*ast.CallExpr); ok && rewardCoin == "" {
+				if sel, ok := c.Fun.(*ast.SelectorExpr); ok && sel.Sel.Name == "NewCoin" {
+					rewardCoin = sc.resolve(c, 0)
 				}
-			case *ast.RangeStmt:
-				ranged = Nospace(x.X)
 			}
 			return true
 		})
 	}
-	fmt.Printf("Definition reward_expr : string := %s.\n", CoqString(reward))
-	fmt.Printf("Definition reward_added : string := %s.\n", CoqString(added))
-	fmt.Printf("Definition reward_range : string := %s.\n", CoqString(ranged))
+	fmt.Printf("Definition reward_coin : string := %s.\n", CoqString(rewardCoin))
 
-	// getWithdrawAddressesFromMsgs: asserted message types, ranged expression, self / helper calls
-	var asserted, calls []string
-	wrange := ""
+	// getWithdrawAddressesFromMsgs: asserted message types, ranged expressions, package-local calls
+	var asserted, rcalls, rranges []string
 	if fd := df["getWithdrawAddressesFromMsgs"]; fd != nil && fd.Body != nil {
+		sc := newScope(pkg, fd)
 		seen := map[string]bool{}
+		add := func(l *[]string, k, v string) {
+			if !seen[k+v] {
+				seen[k+v] = true
+				*l = append(*l, v)
+			}
+		}
 		ast.Inspect(fd.Body, func(n ast.Node) bool {
 			switch x := n.(type) {
 			case *ast.TypeAssertExpr:
 				if x.Type != nil {
-					s := Nospace(x.Type)
-					if !seen["t"+s] {
-						seen["t"+s] = true
-						asserted = append(asserted, s)
-					}
-				}
-			case *ast.TypeSwitchStmt:
-				asserted = append(asserted, "typeswitch")
-			case *ast.RangeStmt:
-				if wrange == "" {
-					wrange = Nospace(x.X)
+					add(&asserted, "t", Nospace(x.Type))
 				} else {
-					wrange += "|" + Nospace(x.X)
+					add(&asserted, "t", "typeswitch")
+				}
+			case *ast.CaseClause:
+				for _, e := range x.List {
+					add(&asserted, "t", Nospace(e))
+				}
+			case *ast.RangeStmt:
+				add(&rranges, "r", sc.resolve(x.X, 0))
+			case *ast.ForStmt:
+				if r := sc.forRange(x); r != "" {
+					add(&rranges, "r", r)
+				} else {
+					add(&rranges, "r", "for?")
 				}
 			case *ast.CallExpr:
-				s := Nospace(x.Fun)
-				if !seen["c"+s] {
-					seen["c"+s] = true
-					calls = append(calls, s)
+				name := sc.funName(x.Fun)
+				if strings.HasPrefix(name, "R.") || pkg.funcs[name] != nil {
+					add(&rcalls, "c", name)
 				}
 			}
 			return true
 		})
 	}
 	printList("recipients_asserted_types", asserted)
-	printList("recipients_calls", calls)
-	fmt.Printf("Definition recipients_range : string := %s.\n", CoqString(wrange))
+	printList("recipients_local_calls", rcalls)
+	printList("recipients_ranges", rranges)
 
-	// settleFeePayments: calls in order (source module, same coin set for every recipient)
-	var settle []string
+	// settleFeePayments: the bank send with everything inlined, and what its enclosing loop ranges over
+	sendCall, sendLoop := "", ""
+	nSends := 0
 	if fd := df["settleFeePayments"]; fd != nil && fd.Body != nil {
-		ast.Inspect(fd.Body, func(n ast.Node) bool {
-			if x, ok := n.(*ast.CallExpr); ok {
-				name := Nospace(x.Fun)
-				if name == "getAllowedFees" || name == "FeePayLogic" || strings.HasSuffix(name, "SendCoinsFromModuleToAccount") {
-					settle = append(settle, Nospace(x))
+		sc := newScope(pkg, fd)
+		var loops []string
+		var walk func(n ast.Node)
+		walk = func(n ast.Node) {
+			if n == nil {
+				return
+			}
+			pushed := false
+			switch x := n.(type) {
+			case *ast.RangeStmt:
+				loops = append(loops, "range("+sc.resolve(x.X, 0)+")")
+				pushed = true
+			case *ast.ForStmt:
+				r := sc.forRange(x)
+				if r == "" {
+					r = "for?"
+				} else {
+					r = "range(" + r + ")"
+				}
+				loops = append(loops, r)
+				pushed = true
+			case *ast.CallExpr:
+				if strings.HasSuffix(sc.funName(x.Fun), "SendCoinsFromModuleToAccount") {
+					nSends++
+					sendCall = sc.resolve(x, 0)
+					sendLoop = strings.Join(loops, "/")
 				}
 			}
-			return true
-		})
-	}
-	printList("settle_calls", settle)
-
-	// devGasPayout: guard on params.EnableFeeShare and on len(toPay)
-	guardEnabled, guardEmpty := false, false
-	if fd := df["devGasPayout"]; fd != nil && fd.Body != nil {
-		b := Nospace(fd.Body)
-		guardEnabled = strings.Contains(b, "L0:=R.devgasKeeper.GetParams(P0)if!L0.EnableFeeShare{returnnil}")
-		guardEmpty = strings.Contains(b, "L1,err:=R.getWithdrawAddressesFromMsgs(P0,P1.GetMsgs())") && strings.Contains(b, "iflen(L1)==0{returnnil}")
-		fmt.Printf("Definition payout_fee_source : string := %s.\n", CoqString(argOfCall(fd, "settleFeePayments", 3)))
-	} else {
-		fmt.Printf("Definition payout_fee_source : string := %s.\n", CoqString(""))
-	}
-	fmt.Printf("Definition payout_guard_enabled : bool := %s.\n", CoqBool(guardEnabled))
-	fmt.Printf("Definition payout_guard_empty : bool := %s.\n", CoqBool(guardEmpty))
-
-	// getAllowedFees: does the `if fee.Denom == allowed { … }` block leave the inner loop after the first match?
-	breaks, adds := false, 0
-	if fd := df["getAllowedFees"]; fd != nil && fd.Body != nil {
-		ast.Inspect(fd.Body, func(n ast.Node) bool {
-			ifs, ok := n.(*ast.IfStmt)
-			if !ok {
-				return true
-			}
-			be, ok := ifs.Cond.(*ast.BinaryExpr)
-			if !ok || be.Op != token.EQL || !strings.HasSuffix(Nospace(be.X), ".Denom") {
-				return true
-			}
-			for _, st := range ifs.Body.List {
-				if br, ok := st.(*ast.BranchStmt); ok && br.Tok == token.BREAK && br.Label == nil {
-					breaks = true
+			ast.Inspect(n, func(m ast.Node) bool {
+				if m == n {
+					return true
 				}
-			}
-			ast.Inspect(ifs.Body, func(m ast.Node) bool {
-				if c, ok := m.(*ast.CallExpr); ok && strings.HasSuffix(Nospace(c.Fun), ".Add") {
-					adds++
+				if m != nil {
+					walk(m)
 				}
-				return true
+				return false
 			})
+			if pushed {
+				loops = loops[:len(loops)-1]
+			}
+		}
+		walk(fd.Body)
+	}
+	fmt.Printf("Definition send_call : string := %s.\n", CoqString(sendCall))
+	fmt.Printf("Definition send_loop : string := %s.\n", CoqString(sendLoop))
+	fmt.Printf("Definition send_call_sites : nat := %d.\n", nSends)
+
+	// devGasPayout: arguments of the settle call (inlined) and the EnableFeeShare guard before it
+	var settleArgs []string
+	guardEnabled := false
+	if fd := df["devGasPayout"]; fd != nil && fd.Body != nil {
+		sc := newScope(pkg, fd)
+		settlePos := token.Pos(0)
+		ast.Inspect(fd.Body, func(n ast.Node) bool {
+			if c, ok := n.(*ast.CallExpr); ok && strings.HasSuffix(sc.funName(c.Fun), "settleFeePayments") && settlePos == 0 {
+				settlePos = c.Pos()
+				for _, a := range c.Args {
+					settleArgs = append(settleArgs, sc.resolve(a, 0))
+				}
+			}
 			return true
 		})
+		for _, st := range fd.Body.List {
+			ifs, ok := st.(*ast.IfStmt)
+			if !ok || (settlePos != 0 && ifs.Pos() > settlePos) || ifs.Else != nil || len(ifs.Body.List) == 0 {
+				continue
+			}
+			if _, isRet := ifs.Body.List[len(ifs.Body.List)-1].(*ast.ReturnStmt); !isRet {
+				continue
+			}
+			if strings.HasPrefix(sc.resolve(ifs.Cond, 0), "!") && strings.HasSuffix(sc.resolve(ifs.Cond, 0), ".GetParams(P0).EnableFeeShare") {
+				guardEnabled = true
+			}
+		}
 	}
-	fmt.Printf("Definition allowed_fees_break_after_first_match : bool := %s.\n", CoqBool(breaks))
+	printList("settle_args", settleArgs)
+	fmt.Printf("Definition payout_guard_enabled : bool := %s.\n", CoqBool(guardEnabled))
+
+	// getAllowedFees: every `.Add(` on the result runs at most once per fee coin: it sits in one loop (the coin
+	// loop), or in an inner loop whose block leaves that loop (break / return) right after the Add
+	addsOnce, adds := true, 0
+	if fd := df["getAllowedFees"]; fd != nil && fd.Body != nil {
+		var loops []ast.Node
+		var walk func(n ast.Node, block *ast.BlockStmt)
+		walk = func(n ast.Node, block *ast.BlockStmt) {
+			switch x := n.(type) {
+			case *ast.RangeStmt, *ast.ForStmt:
+				loops = append(loops, x)
+				defer func() { loops = loops[:len(loops)-1] }()
+			case *ast.BlockStmt:
+				block = x
+			case *ast.CallExpr:
+				if sel, ok := x.Fun.(*ast.SelectorExpr); ok && sel.Sel.Name == "Add" {
+					adds++
+					switch {
+					case len(loops) <= 1:
+					case len(loops) == 2 && block != nil && leavesLoop(block, x.Pos()):
+					default:
+						addsOnce = false
+					}
+				}
+			}
+			ast.Inspect(n, func(m ast.Node) bool {
+				if m == n {
+					return true
+				}
+				if m != nil {
+					walk(m, block)
+				}
+				return false
+			})
+		}
+		walk(fd.Body, nil)
+	} else {
+		addsOnce = false
+	}
+	fmt.Printf("Definition allowed_fees_break_after_first_match : bool := %s.\n", CoqBool(addsOnce && adds > 0))
 	fmt.Printf("Definition allowed_fees_adds_per_match : nat := %d.\n", adds)
 
 	// ---- msg server: order of guard and write calls per handler
 	keeper := ParseDir(repo + "/x/devgas/v1/keeper")
 	kf := Funcs(keeper)
-	interesting := []string{"k.GetParams", "k.IsFeeShareRegistered", "k.GetFeeShare", "k.isContractCreatedFromFactory",
-		"k.GetContractAdminOrCreatorAddress", "k.SetFeeShare", "k.DevGasStore.Delete", "k.DevGasStore.Insert"}
-	for _, fn := range []string{"RegisterFeeShare", "UpdateFeeShare", "CancelFeeShare"} {
+	kpkg := &pkgInfo{funcs: kf}
+	interesting := map[string]bool{"R.GetParams": true, "R.IsFeeShareRegistered": true, "R.GetFeeShare": true,
+		"R.isContractCreatedFromFactory": true, "R.GetContractAdminOrCreatorAddress": true, "R.SetFeeShare": true,
+		"R.DevGasStore.Delete": true, "R.DevGasStore.Insert": true}
+	var callSeq func(fd *ast.FuncDecl, depth int) []string
+	callSeq = func(fd *ast.FuncDecl, depth int) []string {
 		var seq []string
-		if fd := kf[fn]; fd != nil && fd.Body != nil {
-			type pc struct {
-				pos  int
-				name string
+		if fd == nil || fd.Body == nil {
+			return seq
+		}
+		sc := newScope(kpkg, fd)
+		ast.Inspect(fd.Body, func(n ast.Node) bool {
+			if x, ok := n.(*ast.CallExpr); ok {
+				name := sc.funName(x.Fun)
+				switch {
+				case interesting[name]:
+					seq = append(seq, name)
+				case depth < 1 && strings.HasPrefix(name, "R.") && !strings.Contains(name[2:], ".") && !ast.IsExported(name[2:]):
+					seq = append(seq, callSeq(kf[name[2:]], depth+1)...)
+				case depth < 1 && kf[name] != nil && !ast.IsExported(name):
+					seq = append(seq, callSeq(kf[name], depth+1)...)
+				}
 			}
-			var found []pc
+			return true
+		})
+		return seq
+	}
+	for _, fn := range []string{"RegisterFeeShare", "UpdateFeeShare", "CancelFeeShare"} {
+		printList("calls_"+fn, callSeq(kf[fn], 0))
+	}
+	// the authority check of Update / Cancel: `…, e := k.GetContractAdminOrCreatorAddress(ctx, c, <msg>.<Field>)` whose error is
+	// returned at once — either the next statement is `if e != nil { …; return … }` or the call is the init of such an if;
+	// <Field> must be the field GetSigners() returns
+	types := ParseDir(repo + "/x/devgas/v1/types")
+	for _, fn := range []string{"UpdateFeeShare", "CancelFeeShare"} {
+		ok, field := false, ""
+		if fd := kf[fn]; fd != nil && fd.Body != nil {
+			sc := newScope(kpkg, fd)
+			authRe := regexp.MustCompile(`^R\.GetContractAdminOrCreatorAddress\(.*,P1\.(\w+)\)(#1)?$`)
+			// the call itself, or an unexported straight-line helper that returns its error
+			isAuth := func(st ast.Stmt) (string, bool) {
+				as, isAs := st.(*ast.AssignStmt)
+				if !isAs || len(as.Rhs) != 1 || len(as.Lhs) == 0 {
+					return "", false
+				}
+				m := authRe.FindStringSubmatch(sc.resolve(as.Rhs[0], 0))
+				if m == nil {
+					return "", false
+				}
+				field = m[1]
+				return Nospace(as.Lhs[len(as.Lhs)-1]), true
+			}
+			returnsOn := func(ifs *ast.IfStmt, errName string) bool {
+				c := Nospace(ifs.Cond)
+				if c != errName+"!=nil" && c != "nil!="+errName {
+					return false
+				}
+				if len(ifs.Body.List) == 0 {
+					return false
+				}
+				_, isRet := ifs.Body.List[len(ifs.Body.List)-1].(*ast.ReturnStmt)
+				return isRet
+			}
 			ast.Inspect(fd.Body, func(n ast.Node) bool {
-				if x, ok := n.(*ast.CallExpr); ok {
-					name := Nospace(x.Fun)
-					for _, w := range interesting {
-						if name == w {
-							found = append(found, pc{int(x.Pos()), name})
+				switch x := n.(type) {
+				case *ast.BlockStmt:
+					for i, st := range x.List {
+						if errName, is := isAuth(st); is && i+1 < len(x.List) {
+							if ifs, isIf := x.List[i+1].(*ast.IfStmt); isIf && ifs.Init == nil && returnsOn(ifs, errName) {
+								ok = true
+							}
+						}
+					}
+				case *ast.IfStmt:
+					if x.Init != nil {
+						if errName, is := isAuth(x.Init); is && returnsOn(x, errName) {
+							ok = true
 						}
 					}
 				}
 				return true
 			})
-			// source order
-			for i := 0; i < len(found); i++ {
-				for j := i + 1; j < len(found); j++ {
-					if found[j].pos < found[i].pos {
-						found[i], found[j] = found[j], found[i]
-					}
-				}
-			}
-			for _, f := range found {
-				seq = append(seq, f.name)
-			}
-		}
-		printList("calls_"+fn, seq)
-	}
-	// the authority check of Update / Cancel: a top-level statement `…, e = k.GetContractAdminOrCreatorAddress(ctx, c, <msg>.<Field>)`
-	// immediately followed by `if e != nil { return … }`; <Field> must be the field GetSigners() returns
-	types := ParseDir(repo + "/x/devgas/v1/types")
-	for _, fn := range []string{"UpdateFeeShare", "CancelFeeShare"} {
-		ok, field := false, ""
-		if fd := kf[fn]; fd != nil && fd.Body != nil {
-			for i, st := range fd.Body.List {
-				as, isAs := st.(*ast.AssignStmt)
-				if !isAs || len(as.Rhs) != 1 || len(as.Lhs) == 0 {
-					continue
-				}
-				call, isCall := as.Rhs[0].(*ast.CallExpr)
-				if !isCall || !strings.HasSuffix(Nospace(call.Fun), ".GetContractAdminOrCreatorAddress") || len(call.Args) != 3 {
-					continue
-				}
-				if sel, isSel := call.Args[2].(*ast.SelectorExpr); isSel {
-					field = sel.Sel.Name
-				}
-				errName := Nospace(as.Lhs[len(as.Lhs)-1])
-				if i+1 < len(fd.Body.List) {
-					if ifs, isIf := fd.Body.List[i+1].(*ast.IfStmt); isIf && ifs.Init == nil && Nospace(ifs.Cond) == errName+"!=nil" &&
-						len(ifs.Body.List) > 0 {
-						if _, isRet := ifs.Body.List[len(ifs.Body.List)-1].(*ast.ReturnStmt); isRet {
-							ok = true
-						}
-					}
-				}
-			}
 		}
 		fmt.Printf("Definition auth_error_returned_%s : bool := %s.\n", fn, CoqBool(ok))
 		fmt.Printf("Definition auth_checked_field_%s : string := %s.\n", fn, CoqString(field))
@@ -319,88 +399,275 @@ func main() {
 	}
 }
 
-// alphaNorm renames, in place, the receiver to R, parameters to P<i> and locally defined identifiers
-// to L<k> (order of first definition), leaving selectors' field names and composite-literal keys alone.
-func alphaNorm(fd *ast.FuncDecl) {
-	ren := map[string]string{}
+// ---------------------------------------------------------------- a small expression normaliser
+//
+// resolve prints an expression with the receiver as R, parameters as P<i>, single-definition locals replaced by
+// their defining expression (recursively), loop variables as elem(<ranged>) / idx, X[i] with a loop index i as
+// elem(X), and calls of unexported straight-line helpers of the package replaced by their returned expression.
+// Locals with several definitions print as L?.  Names of locals therefore never show up in a fact.
+
+type pkgInfo struct{ funcs map[string]*ast.FuncDecl }
+
+type scope struct {
+	pkg   *pkgInfo
+	ren   map[string]string   // receiver / params
+	defs  map[string]ast.Expr // single definition
+	tag   map[string]string   // "#k" for the k-th result of a multi-value call
+	count map[string]int
+	elem  map[string]ast.Expr // range value var -> ranged expr
+	idx   map[string]bool     // range key / for-loop index
+	subst map[string]string   // helper inlining: param -> resolved argument
+}
+
+func newScope(pkg *pkgInfo, fd *ast.FuncDecl) *scope {
+	sc := &scope{pkg: pkg, ren: map[string]string{}, defs: map[string]ast.Expr{}, tag: map[string]string{}, count: map[string]int{},
+		elem: map[string]ast.Expr{}, idx: map[string]bool{}}
 	if fd.Recv != nil {
 		for _, f := range fd.Recv.List {
 			for _, n := range f.Names {
-				ren[n.Name] = "R"
+				sc.ren[n.Name] = "R"
 			}
 		}
 	}
 	i := 0
 	for _, f := range fd.Type.Params.List {
 		for _, n := range f.Names {
-			ren[n.Name] = fmt.Sprintf("P%d", i)
+			sc.ren[n.Name] = fmt.Sprintf("P%d", i)
 			i++
 		}
 	}
 	if fd.Body == nil {
-		return
+		return sc
 	}
-	k := 0
-	def := func(e ast.Expr) {
-		if id, ok := e.(*ast.Ident); ok && id.Name != "_" && id.Name != "err" {
-			if _, seen := ren[id.Name]; !seen {
-				ren[id.Name] = fmt.Sprintf("L%d", k)
-				k++
+	define := func(lhs []ast.Expr, rhs []ast.Expr) {
+		for k, l := range lhs {
+			id, ok := l.(*ast.Ident)
+			if !ok || id.Name == "_" {
+				continue
+			}
+			sc.count[id.Name]++
+			switch {
+			case len(rhs) == len(lhs):
+				sc.defs[id.Name] = rhs[k]
+			case len(rhs) == 1:
+				sc.defs[id.Name] = rhs[0]
+				if _, isTA := rhs[0].(*ast.TypeAssertExpr); !isTA || k > 0 {
+					sc.tag[id.Name] = fmt.Sprintf("#%d", k)
+				}
 			}
 		}
 	}
-	skip := map[*ast.Ident]bool{}
 	ast.Inspect(fd.Body, func(n ast.Node) bool {
 		switch x := n.(type) {
 		case *ast.AssignStmt:
-			if x.Tok == token.DEFINE {
+			if x.Tok == token.DEFINE || x.Tok == token.ASSIGN {
+				define(x.Lhs, x.Rhs)
+			} else {
 				for _, l := range x.Lhs {
-					def(l)
+					if id, ok := l.(*ast.Ident); ok {
+						sc.count[id.Name] += 2
+					}
+				}
+			}
+		case *ast.IncDecStmt:
+			if id, ok := x.X.(*ast.Ident); ok {
+				sc.count[id.Name] += 2
+			}
+		case *ast.ValueSpec:
+			for k, nm := range x.Names {
+				if k < len(x.Values) {
+					sc.count[nm.Name]++
+					sc.defs[nm.Name] = x.Values[k]
 				}
 			}
 		case *ast.RangeStmt:
-			if x.Tok == token.DEFINE {
-				if x.Key != nil {
-					def(x.Key)
-				}
-				if x.Value != nil {
-					def(x.Value)
-				}
+			if id, ok := x.Key.(*ast.Ident); ok && id.Name != "_" {
+				sc.idx[id.Name] = true
 			}
-		case *ast.ValueSpec:
-			for _, nm := range x.Names {
-				def(nm)
+			if id, ok := x.Value.(*ast.Ident); ok && id.Name != "_" {
+				sc.elem[id.Name] = x.X
 			}
-		case *ast.SelectorExpr:
-			skip[x.Sel] = true
-		case *ast.KeyValueExpr:
-			if id, ok := x.Key.(*ast.Ident); ok {
-				skip[id] = true
+		case *ast.ForStmt:
+			if as, ok := x.Init.(*ast.AssignStmt); ok && len(as.Lhs) == 1 {
+				if id, ok := as.Lhs[0].(*ast.Ident); ok {
+					sc.idx[id.Name] = true
+				}
 			}
 		}
 		return true
 	})
-	ast.Inspect(fd.Body, func(n ast.Node) bool {
-		if id, ok := n.(*ast.Ident); ok && !skip[id] {
-			if nn, ok := ren[id.Name]; ok {
-				id.Name = nn
-			}
-		}
-		return true
-	})
+	return sc
 }
 
-func argOfCall(fd *ast.FuncDecl, suffix string, idx int) string {
-	out := ""
-	ast.Inspect(fd.Body, func(n ast.Node) bool {
-		if x, ok := n.(*ast.CallExpr); ok {
-			if strings.HasSuffix(Nospace(x.Fun), suffix) && idx < len(x.Args) {
-				out = Nospace(x.Args[idx])
+// forRange: `for i := 0; i < len(X); i++` (len possibly through a local) ranges over X
+func (sc *scope) forRange(x *ast.ForStmt) string {
+	as, ok := x.Init.(*ast.AssignStmt)
+	if !ok || len(as.Lhs) != 1 || len(as.Rhs) != 1 || Nospace(as.Rhs[0]) != "0" {
+		return ""
+	}
+	i := Nospace(as.Lhs[0])
+	be, ok := x.Cond.(*ast.BinaryExpr)
+	if !ok || be.Op != token.LSS || Nospace(be.X) != i {
+		return ""
+	}
+	inc, ok := x.Post.(*ast.IncDecStmt)
+	if !ok || inc.Tok != token.INC || Nospace(inc.X) != i {
+		return ""
+	}
+	bound := sc.resolve(be.Y, 0)
+	if strings.HasPrefix(bound, "len(") && strings.HasSuffix(bound, ")") {
+		return bound[4 : len(bound)-1]
+	}
+	return ""
+}
+
+func (sc *scope) funName(e ast.Expr) string {
+	switch x := e.(type) {
+	case *ast.Ident:
+		return x.Name
+	case *ast.SelectorExpr:
+		if id, ok := x.X.(*ast.Ident); ok {
+			if r, ok := sc.ren[id.Name]; ok {
+				return r + "." + x.Sel.Name
+			}
+			return id.Name + "." + x.Sel.Name
+		}
+		return sc.funName(x.X) + "." + x.Sel.Name
+	}
+	return Nospace(e)
+}
+
+func (sc *scope) resolve(e ast.Expr, depth int) string {
+	if e == nil {
+		return ""
+	}
+	if depth > 12 {
+		return "…"
+	}
+	switch x := e.(type) {
+	case *ast.Ident:
+		n := x.Name
+		if sc.subst != nil {
+			if v, ok := sc.subst[n]; ok {
+				return v
 			}
 		}
-		return true
-	})
-	return out
+		if r, ok := sc.ren[n]; ok {
+			return r
+		}
+		if ex, ok := sc.elem[n]; ok {
+			return "elem(" + sc.resolve(ex, depth+1) + ")"
+		}
+		if sc.idx[n] {
+			return "idx"
+		}
+		if d, ok := sc.defs[n]; ok {
+			if sc.count[n] == 1 {
+				return sc.resolve(d, depth+1) + sc.tag[n]
+			}
+			return "L?"
+		}
+		return n
+	case *ast.ParenExpr:
+		return "(" + sc.resolve(x.X, depth+1) + ")"
+	case *ast.SelectorExpr:
+		return sc.resolve(x.X, depth+1) + "." + x.Sel.Name
+	case *ast.StarExpr:
+		return "*" + sc.resolve(x.X, depth+1)
+	case *ast.UnaryExpr:
+		return x.Op.String() + sc.resolve(x.X, depth+1)
+	case *ast.BinaryExpr:
+		return sc.resolve(x.X, depth+1) + x.Op.String() + sc.resolve(x.Y, depth+1)
+	case *ast.IndexExpr:
+		if id, ok := x.Index.(*ast.Ident); ok && sc.idx[id.Name] {
+			return "elem(" + sc.resolve(x.X, depth+1) + ")"
+		}
+		return sc.resolve(x.X, depth+1) + "[" + sc.resolve(x.Index, depth+1) + "]"
+	case *ast.TypeAssertExpr:
+		if x.Type == nil {
+			return sc.resolve(x.X, depth+1) + ".(type)"
+		}
+		return sc.resolve(x.X, depth+1) + ".(" + Nospace(x.Type) + ")"
+	case *ast.CallExpr:
+		var args []string
+		for _, a := range x.Args {
+			args = append(args, sc.resolve(a, depth+1))
+		}
+		if inl, ok := sc.inline(x, args, depth); ok {
+			return inl
+		}
+		return sc.resolve(x.Fun, depth+1) + "(" + strings.Join(args, ",") + ")"
+	}
+	return Nospace(e)
+}
+
+// inline replaces a call of an unexported straight-line helper (only single-definition `:=` statements and one final
+// `return <expr>`) by the returned expression
+func (sc *scope) inline(call *ast.CallExpr, args []string, depth int) (string, bool) {
+	if sc.pkg == nil || depth > 6 {
+		return "", false
+	}
+	name := sc.funName(call.Fun)
+	name = strings.TrimPrefix(name, "R.")
+	fd := sc.pkg.funcs[name]
+	if fd == nil || fd.Body == nil || ast.IsExported(name) || strings.Contains(name, ".") || len(fd.Body.List) == 0 {
+		return "", false
+	}
+	for i, st := range fd.Body.List {
+		if i == len(fd.Body.List)-1 {
+			r, ok := st.(*ast.ReturnStmt)
+			if !ok || len(r.Results) != 1 {
+				return "", false
+			}
+			h := newScope(sc.pkg, fd)
+			h.subst = map[string]string{}
+			k := 0
+			for _, f := range fd.Type.Params.List {
+				for _, n := range f.Names {
+					if k < len(args) {
+						h.subst[n.Name] = args[k]
+					}
+					k++
+				}
+			}
+			if fd.Recv != nil {
+				if sel, ok := call.Fun.(*ast.SelectorExpr); ok {
+					for _, f := range fd.Recv.List {
+						for _, n := range f.Names {
+							h.subst[n.Name] = sc.resolve(sel.X, depth+1)
+						}
+					}
+				}
+			}
+			return h.resolve(r.Results[0], depth+1), true
+		}
+		as, ok := st.(*ast.AssignStmt)
+		if !ok || as.Tok != token.DEFINE {
+			return "", false
+		}
+	}
+	return "", false
+}
+
+// leavesLoop: in block b, a statement at or after position p (the statement holding the Add) is followed, in the same
+// block, by `break` or `return`
+func leavesLoop(b *ast.BlockStmt, p token.Pos) bool {
+	after := false
+	for _, st := range b.List {
+		if st.Pos() <= p && p < st.End() {
+			after = true
+			continue
+		}
+		if after {
+			switch x := st.(type) {
+			case *ast.BranchStmt:
+				return x.Tok == token.BREAK && x.Label == nil
+			case *ast.ReturnStmt:
+				return true
+			}
+		}
+	}
+	return false
 }
 
 func printList(name string, xs []string) {
